@@ -9,6 +9,117 @@ RT_FLOOR = 1200          # instances reachable from the audio-thread roots (coun
 KIRA_FLOOR = 300         # of which kira's own (counted: 383)
 
 
+# ---------------------------------------------------------------- structural preconditions of table entries
+
+def chk_delay_line_nonempty(F):
+    """Every writer of Delay.buffer that runs after construction sizes it with max(.., 1)."""
+    from .paths import describe_rv, pretty_place
+    n = 0
+    for m in ('init', 'on_change_sample_rate'):
+        b = F.body('<effect::delay::Delay as effect::Effect>::' + m)
+        if b is None:
+            return False, 'Delay::%s not found' % m
+        for bb, si, s in b.stmts():
+            if s['k'] == 'assign' and s['lhs']['p'] and pretty_place(b, s['lhs']) == '(*self).buffer':
+                d = describe_rv(b, s['rv'], depth=8, at=bb)
+                n += 1
+                if not ('from_elem(' in d and '::max(' in d and d.rstrip(')').endswith(', 1')):
+                    return False, 'Delay::%s sizes the delay line as %s (no lower bound of one frame)' % (m, d[:120])
+    # no other function writes it
+    for b in F.bodies:
+        if b.krate == 'kira' and 'effect::delay' in b.path and not b.path.endswith(('::init', '::on_change_sample_rate', '::new')):
+            for bb, si, s in b.stmts():
+                if s['k'] == 'assign' and s['lhs']['p'] and pretty_place(b, s['lhs']) == '(*self).buffer':
+                    return False, '%s also assigns the delay line' % b.path
+    return n == 2, '%d writers found' % n
+
+
+def chk_reverb_filters_nonempty(F):
+    from .paths import describe, explore
+    from .facts import callee_path
+    b = F.body('effect::reverb::Reverb::init_filters')
+    if b is None:
+        return False, 'Reverb::init_filters not found'
+    n = 0
+    for bb, t in b.calls():
+        cp = callee_path(t) or ''
+        if cp in ('effect::reverb::comb::CombFilter::new', 'effect::reverb::all_pass::AllPassFilter::new'):
+            n += 1
+            d = describe(b, t['args'][0], depth=3, at=bb)
+            if not d.startswith('effect::reverb::Reverb::init_filters::{closure#0}('):
+                return False, 'a filter is sized with %s' % d[:100]
+    # constructors are only called here
+    for o in F.bodies:
+        if o.krate == 'kira' and o.path != b.path:
+            for bb, t in o.calls():
+                if (callee_path(t) or '') in ('effect::reverb::comb::CombFilter::new', 'effect::reverb::all_pass::AllPassFilter::new'):
+                    return False, '%s builds a filter' % o.path
+    for c in F.closures_of(b.path):
+        rets = [str(p.ret) for p in explore(c) if p.end == 'return']
+        if not rets or not all('::max(' in r and r.rstrip(')').endswith(', 1') for r in rets):
+            return False, 'the size helper returns %s (no lower bound of one sample)' % rets
+    return n == 24, '%d filter constructions' % n
+
+
+def chk_loop_region_ordered(F):
+    """Every value stored into Transport.loop_region went through a filter that keeps only end > start."""
+    from .paths import describe, describe_rv, explore, pretty_place
+    from .facts import callee_path
+    T = 'sound::transport::Transport'
+    stores = []
+    for b in F.bodies:
+        if b.krate != 'kira':
+            continue
+        for bb, si, s in b.stmts():
+            if s['k'] != 'assign':
+                continue
+            if s['lhs']['p'] and s['lhs']['p'][-1][0] == 'field' and s['lhs']['p'][-1][2] == 'loop_region' and s['lhs']['p'][-1][3] == T:
+                stores.append((b, bb, describe_rv(b, s['rv'], depth=4, at=bb)))
+            if s['rv']['k'] == 'agg' and s['rv'].get('adt') == T:
+                i = s['rv']['fields'].index('loop_region')
+                stores.append((b, bb, describe(b, s['rv']['ops'][i], depth=4, at=bb)))
+    if len(stores) < 2:
+        return False, 'only %d stores to Transport.loop_region found' % len(stores)
+    for b, bb, d in stores:
+        fn = d.split('(')[0]
+        fb = F.body(fn)
+        if fb is None or fb.krate != 'kira':
+            if not d.startswith('std::option::Option::<T>::filter('):
+                return False, '%s stores %s into loop_region without an ordering filter' % (b.path, d[:100])
+            fb = b
+        rets = [str(p.ret) for p in explore(fb) if p.end == 'return'] if fb is not b else [d]
+        if not all(r.startswith('std::option::Option::<T>::filter(') for r in rets):
+            return False, '%s returns %s' % (fb.path, rets)
+        ok = False
+        for c in F.closures_of(fb.path):
+            for x, t in c.calls():
+                if t['callee'].get('name') in ('gt', 'lt') and len(t['args']) == 2:
+                    a0 = describe(c, t['args'][0], depth=4, at=x)
+                    a1 = describe(c, t['args'][1], depth=4, at=x)
+                    a0, a1 = a0.lstrip('&'), a1.lstrip('&')
+                    if t['callee']['name'] == 'gt' and a0.endswith('.1') and a1.endswith('.0'):
+                        ok = True
+                    if t['callee']['name'] == 'lt' and a0.endswith('.0') and a1.endswith('.1'):
+                        ok = True
+            for x, si, st in c.stmts():
+                if st['k'] == 'assign' and st['rv']['k'] == 'bin' and st['rv']['op'] in ('Gt', 'Lt'):
+                    a0 = describe(c, st['rv']['a'], depth=4, at=x)
+                    a1 = describe(c, st['rv']['b'], depth=4, at=x)
+                    if (st['rv']['op'] == 'Gt' and a0.endswith('.1') and a1.endswith('.0')) or \
+                            (st['rv']['op'] == 'Lt' and a0.endswith('.0') and a1.endswith('.1')):
+                        ok = True
+        if not ok:
+            return False, 'the filter in %s does not keep only loop_end > loop_start' % fb.path
+    return True, '%d stores, all filtered' % len(stores)
+
+
+CHECKS = {
+    'delay_line_nonempty': chk_delay_line_nonempty,
+    'reverb_filters_nonempty': chk_reverb_filters_nonempty,
+    'loop_region_ordered': chk_loop_region_ordered,
+}
+
+
 def load_table():
     sinks, sites, loops = {}, {}, {}
     with open(os.path.join(VERIF, 'tables', 'discharge.jsonl')) as f:
@@ -24,6 +135,13 @@ def load_table():
             elif d['kind'] == 'loop':
                 loops[(d['fn'], d['ordinal'])] = d
     return sinks, sites, loops
+
+
+def run_check(F, name, cache):
+    if name not in cache:
+        fn = CHECKS.get(name)
+        cache[name] = fn(F) if fn else (False, 'unknown check')
+    return cache[name]
 
 
 def run_engine_a(R, F, groups=('rt',), effects=('alloc', 'free', 'panic', 'block', 'leaf'), loops=True,
@@ -44,6 +162,7 @@ def run_engine_a(R, F, groups=('rt',), effects=('alloc', 'free', 'panic', 'block
                 detail='%d Ordering arguments in RT bodies are literal and valid for their operation' % A.ordering_sites)
     obs = A.obligations()
     rtpaths = None
+    check_cache = {}
     stats = {'obligations': 0, 'sink_discharged': 0, 'site_discharged': 0, 'auto_discharged': A.auto_count,
              'undischarged': 0}
     for o in obs:
@@ -58,6 +177,12 @@ def run_engine_a(R, F, groups=('rt',), effects=('alloc', 'free', 'panic', 'block
         where = o['sites'][0] if o['sites'] else None
         if ent is not None and o['count'] <= ent['count']:
             ok = True
+            if ent.get('check'):
+                good, msg = run_check(F, ent['check'], check_cache)
+                if not good:
+                    ok = False
+                    R.bad(rule, key, 'the discharge of %s rests on the structural precondition `%s`, which does not hold: %s'
+                          % (o['key'], ent['check'], msg), where=where, chain=o['chain'])
             for req in ent.get('requires_absent', []):
                 if rtpaths is None:
                     rtpaths = set(F.instances[i]['path'] for i in A.rt)
@@ -104,6 +229,13 @@ def run_engine_a(R, F, groups=('rt',), effects=('alloc', 'free', 'panic', 'block
                      where=l['where'], nontrivial=False)
                 continue
             ent = loop_tab.get((l['fn'], l['ordinal']))
+            if ent is not None and ent.get('check'):
+                good, msg = run_check(F, ent['check'], check_cache)
+                if not good:
+                    lstats['undischarged'] += 1
+                    R.bad(rule, key, 'the bound of the loop in %s rests on the structural precondition `%s`, which does not hold: %s'
+                          % (l['fn'], ent['check'], msg), where=l['where'], chain=l['chain'])
+                    continue
             if ent is not None:
                 lstats['table'] += 1
                 R.ok(rule, key + tag, detail={'class': ent['klass'], 'reason': ent['reason'], 'exit': l['detail'][:160]},
